@@ -1056,10 +1056,92 @@ func sharedVertices(c *vkit.Collector, id s2.CellID, ids []s2.CellID) {
 	}
 }
 
+// ---------- exact-vertex probes in the tangent shortcut band ----------
+//
+// crossingSign first tests whether C and D are both beyond B (or A) along the outward
+// tangent: c.bTangent > maxError && d.bTangent > maxError with maxError = (1.5+1/sqrt3)*2^-52
+// ~ 4.6e-16, BEFORE it looks for shared vertices.  For a vertex query (B == C) the product
+// c.bTangent is pure rounding residue; the test is sound only because the residue never
+// exceeds maxError.  These loops have a vertex v whose residue (for A = OriginPoint, the
+// reference of the brute force) lies in the upper half of the allowed band, and an edge (v,w)
+// with w well beyond v, so that any loss of margin in maxError turns the vertex query into a
+// wrong DoNotCross.  Found by scanning ulp perturbations; nothing depends on luck.
+const tangentMaxError = (1.5 + 0.57735026918962576451) * 2.220446049250313e-16
+
+func bTangentResidue(a, b s2.Point) (res float64, bTan r3.Vector) {
+	norm := a.PointCross(b)
+	bTan = norm.Cross(b.Vector)
+	return b.Dot(bTan), bTan
+}
+
+func tangentBandLoops(c *vkit.Collector, rng *vkit.Rng, want int) []lcase {
+	o := s2.OriginPoint()
+	inBandF := func(v s2.Point) bool {
+		res, _ := bTangentResidue(o, v)
+		return res > 0.5*tangentMaxError && res <= tangentMaxError && v.IsUnit()
+	}
+	// phase 1: the band is hit by about 1 random unit vector in 10^5 (residue 1.5*2^-52)
+	scanned := 0
+	var hits []s2.Point
+	for scanned < 3000000 && len(hits) < want {
+		v := randPoint(rng)
+		scanned++
+		if inBandF(v) {
+			hits = append(hits, v)
+		}
+	}
+	// phase 2: ulp neighbours of the hits are in the band far more often
+	nb := 0
+	for _, h := range append([]s2.Point(nil), hits...) {
+		for t := 0; t < 40 && len(hits) < want; t++ {
+			v := s2.Point{Vector: r3.Vector{X: vkit.Ulps(h.X, rng.Intn(5)-2), Y: vkit.Ulps(h.Y, rng.Intn(5)-2), Z: vkit.Ulps(h.Z, rng.Intn(5)-2)}}
+			scanned++
+			if v != h && inBandF(v) {
+				hits = append(hits, v)
+				nb++
+			}
+		}
+	}
+	var out []lcase
+	for _, v := range hits {
+		_, bTan := bTangentResidue(o, v)
+		t := bTan.Normalize()
+		side := v.Cross(t).Normalize()
+		for rep := 0; rep < 2; rep++ {
+			// w beyond v along the tangent; u beyond as well, or behind; on either side
+			w := s2.Point{Vector: v.Add(t.Mul(rng.Range(0.02, 0.3))).Add(side.Mul(rng.Range(-0.1, 0.1))).Normalize()}
+			sgn := 1.0
+			if rng.Bool() {
+				sgn = -1
+			}
+			along := rng.Range(0.02, 0.3)
+			if rng.Bool() {
+				along = -along
+			}
+			u := s2.Point{Vector: v.Add(t.Mul(along)).Add(side.Mul(sgn * rng.Range(0.12, 0.3))).Normalize()}
+			if w.Dot(bTan) <= 4*tangentMaxError {
+				continue
+			}
+			pts := []s2.Point{v, w, u}
+			if rng.Bool() {
+				pts = []s2.Point{w, v, u}
+			}
+			out = append(out, lcase{"tangent-band", pts, nil})
+		}
+	}
+	c.Extra["tangent_band_scanned"] = scanned
+	c.Extra["tangent_band_vertices"] = len(hits)
+	c.Extra["tangent_band_loops"] = len(out)
+	return out
+}
+
 func run(c *vkit.Collector, rng *vkit.Rng, budget int) {
 	nLoops := 230 * budget
 	for k := 0; k < nLoops; k++ {
 		runLoop(c, rng, genLoop(rng, k), k, k < 160)
+	}
+	for k, lc := range tangentBandLoops(c, rng, 40*budget) {
+		runLoop(c, rng, lc, 200000+k, false)
 	}
 	// the special loops and degenerate values (separate stream)
 	for k, lc := range []lcase{
